@@ -19,7 +19,7 @@ pub fn generate(prop: &str, run_seed: u64, _index: u64, tier: Tier) -> Trace {
     t.set_param("elem", rc.below(3));
     let kind = match prop {
         "C15" => 3 + rc.below(2),
-        "C16" => rc.weighted(&[5, 3, 3, 0, 0]) as u64,
+        "C16" | "C01" => rc.weighted(&[5, 3, 3, 0, 0]) as u64,
         "C14" => 2,
         "C08" | "C07" => rc.weighted(&[4, 4, 4, 4, 4, 3]) as u64,
         _ => rc.below(5),
@@ -53,7 +53,7 @@ pub fn generate(prop: &str, run_seed: u64, _index: u64, tier: Tier) -> Trace {
     for &(k, x) in base {
         w[k as usize] = x;
     }
-    if prop == "C16" {
+    if prop == "C16" || prop == "C01" {
         for k in [K_SPLIT_OFF, K_SPLIT_AT, K_PARTITION, K_MERGE_BACK, K_NOISE, K_PART_OP, K_CONVERT, K_MAP_IN_PLACE, K_INTO_BOX, K_FLATTEN, K_SPLIT_SPARE] {
             w[k as usize] *= 4;
         }
